@@ -10,6 +10,7 @@ import (
 	"github.com/avfs/avfs"
 	"github.com/avfs/avfs/vfs/memfs"
 
+	"verif/internal/fsx"
 	"verif/internal/hook"
 	"verif/internal/rt"
 	"verif/internal/winpath"
@@ -86,6 +87,7 @@ func safe(f func() string) (s string) {
 			s = fmt.Sprintf("PANIC(%v)", p)
 		}
 	}()
+	fsx.BeginCall() // a direct call: the lock-site budget of the sequential hook restarts here
 	return f()
 }
 
